@@ -3,6 +3,7 @@
 All helper methods that the harness uses to inspect or prepare storage run in ``quiet``
 mode (they are not part of the simulated history) unless stated otherwise.
 """
+import _thread
 import hashlib
 import importlib
 import os
@@ -17,6 +18,38 @@ BACKENDS = ("simfs", "simfs_opt", "local", "file", "memory")
 RECORDED = ("simfs", "simfs_opt", "local", "file")
 LOCAL = ("local", "file")
 CACHE_PROJECT = "xarray-ceos-alos2"
+_ORIG_ARGV = list(sys.argv)
+
+
+class _StderrRouter:
+    """sys.stderr replacement: what a thread that runs the tool in-process writes goes to that
+    run's buffer, everything else to the real stream (several tool runs may be interleaved)"""
+
+    def __init__(self, real):
+        self.real = real
+        self.buffers = {}
+
+    def write(self, text):
+        buf = self.buffers.get(_thread.get_ident())
+        return (buf or self.real).write(text)
+
+    def flush(self):
+        try:
+            self.real.flush()
+        except Exception:  # noqa: BLE001
+            pass
+
+    def fileno(self):
+        return self.real.fileno()
+
+    def __getattr__(self, name):
+        return getattr(self.real, name)
+
+
+def _stderr_router():
+    if not isinstance(sys.stderr, _StderrRouter):
+        sys.stderr = _StderrRouter(sys.stderr)
+    return sys.stderr
 
 
 def code():
@@ -179,20 +212,22 @@ class World:
         argv.append(self.base + "/" + image)
         if cache_root is not None:
             argv.append(cache_root)
-        import contextlib
         import io as _io
 
-        old = sys.argv
-        sys.argv = argv
         self.cli_stderr = _io.StringIO()
+        router = _stderr_router()
+        ident = _thread.get_ident()
+        router.buffers[ident] = self.cli_stderr
+        sys.argv = argv      # read by argparse before the tool's first file operation
         try:
-            with contextlib.redirect_stderr(self.cli_stderr), watchdog.deadline():
+            with watchdog.deadline():
                 main()
             return 0
         except SystemExit as e:
             return e.code if isinstance(e.code, int) else (0 if e.code is None else 1)
         finally:
-            sys.argv = old
+            router.buffers.pop(ident, None)
+            sys.argv = _ORIG_ARGV
 
     # ------------------------------------------------------------------ product files
     def file_path(self, name):
